@@ -13,12 +13,12 @@
    wins (Python's exception).  `message += x` chains, `message = [..]; message.append(x); b"".join(message)` and
    `a + b` all translate to the same item list. *)
 From Coq Require Import String.
-From AV Require Import Base.Util Model.Prim Model.MsgSet Model.Requests.
+From AV Require Import Base.Util Model.Prim Model.Crc Model.MsgSet Model.Requests.
 
 Inductive val :=
 | VInt (z : Z)
 | VStr (s : option (list Z))          (* bytes or str (code points) or None *)
-| VMsgs (ms : list message)
+| VNone                               (* None where the other values are not strings (Message.timestamp, offset=None) *)
 | VList (l : list val)
 | VTup (l : list val)
 | VRec (fs : list (string * val)).
@@ -32,7 +32,15 @@ Inductive ex :=
 | EGroup (e : ex)                     (* group_by_topic_and_partition(e) as the list of its items, each value again a
                                          list of items *)
 | EKeys (e : ex)                      (* iterating a dict directly: its keys *)
-| EIfGe (e : ex) (c : Z) (a b : ex).  (* a if e >= c else b *)
+| EIfGe (e : ex) (c : Z) (a b : ex)   (* a if e >= c else b *)
+| EIfNone (e : ex) (a b : ex)         (* a if e is None else b *)
+| EAdd (a b : ex)
+| EMul (a b : ex).
+
+(* tests of `if` statements *)
+Inductive cond :=
+| CEq (e : ex) (z : Z)                (* e == z *)
+| CIsNone (e : ex).                   (* e is None *)
 
 Inductive item :=
 | IPack (fields : list (ifmt * ex))   (* struct.pack(">...", ...) *)
@@ -44,11 +52,17 @@ Inductive item :=
 | IIntString (e : ex)                 (* write_int_string *)
 | IRaw (e : ex)                       (* a bytes value appended as it is *)
 | IFor (e : ex) (body : list item)    (* for x in e: body *)
-| ILetMsgSet (msgs magic : ex) (body : list item).
-                                      (* x = KafkaCodec._encode_message_set(msgs, magic=magic); body   (x = a new level).
-                                         Restricted semantics: the clock is not modelled here - a format-1 message
-                                         without timestamp is stamped 0; Proofs.EncDSLSound relates it to the model for
-                                         message lists that carry their timestamps *)
+| ILetMsgSet (msgs magic : ex) (body : list item)
+                                      (* x = KafkaCodec._encode_message_set(msgs, magic=magic); body   (x = a new level);
+                                         meaning: Model.MsgSet.encode_message_set with offset None *)
+| IForIdx (e : ex) (body : list item) (* for x in e: body; ...; v += step   (two new levels: the ITERATION NUMBER, then x;
+                                         the translator writes v as v0 + number * step) *)
+| ICond (c : cond) (th el : list item)  (* if c: th else: el *)
+| IRaise (e : err)                    (* raise *)
+| ICrc (body : list item)             (* m = body; crc = zlib.crc32(m) & 0xFFFFFFFF; struct.pack('>I', crc) + m *)
+| ILetNow (body : list item)          (* x = int(time.time() * 1000); body   (x = a new level; consumes one clock reading) *)
+| ILetMessage (m : ex) (body : list item).
+                                      (* x = KafkaCodec._encode_message(m); body; meaning: Model.MsgSet.encode_message *)
 
 Definition prog : Type := list item.
 
@@ -81,7 +95,6 @@ Fixpoint eval (env : list val) (e : ex) : option val :=
   | ELen e => match eval env e with
               | Some (VStr (Some b)) => Some (VInt (len b))
               | Some (VList l) => Some (VInt (llen l))
-              | Some (VMsgs l) => Some (VInt (llen l))
               | _ => None
               end
   | EGroup e => match eval env e with Some (VList l) => Some (VList (vgroup l)) | _ => None end
@@ -93,6 +106,41 @@ Fixpoint eval (env : list val) (e : ex) : option val :=
                      | Some (VInt z) => if (c <=? z) then eval env a else eval env b
                      | _ => None
                      end
+  | EIfNone e a b => match eval env e with
+                     | Some VNone | Some (VStr None) => eval env a
+                     | Some _ => eval env b
+                     | None => None
+                     end
+  | EAdd a b => match eval env a, eval env b with Some (VInt x), Some (VInt y) => Some (VInt (x + y)) | _, _ => None end
+  | EMul a b => match eval env a, eval env b with Some (VInt x), Some (VInt y) => Some (VInt (x * y)) | _, _ => None end
+  end.
+
+Definition eval_cond (env : list val) (c : cond) : option bool :=
+  match c with
+  | CEq e z => match eval env e with Some (VInt x) => Some (x =? z) | _ => None end
+  | CIsNone e => match eval env e with
+                 | Some VNone | Some (VStr None) => Some true
+                 | Some _ => Some false
+                 | None => None
+                 end
+  end.
+
+(* a Message object: record with the attribute names of afkak.common.Message *)
+Definition msg_of_val (v : val) : option message :=
+  match vfield "magic" v, vfield "attributes" v, vfield "key" v, vfield "value" v, vfield "timestamp" v with
+  | Some (VInt mg), Some (VInt att), Some (VStr k), Some (VStr x), Some ts =>
+      match ts with
+      | VInt t => Some (mkMessage mg att k x (Some t))
+      | VNone => Some (mkMessage mg att k x None)
+      | _ => None
+      end
+  | _, _, _, _, _ => None
+  end.
+
+Fixpoint msgs_of_vals (l : list val) : option (list message) :=
+  match l with
+  | [] => Some []
+  | v :: r => match msg_of_val v, msgs_of_vals r with Some m, Some ms => Some (m :: ms) | _, _ => None end
   end.
 
 Definition eval_int (env : list val) (e : ex) : res Z :=
@@ -139,18 +187,8 @@ Fixpoint run_item (i : item) (env : list val) {struct i} : res (list Z) :=
                                end) body) l
       | _ => Err TypeErr
       end
-  | ILetMsgSet msgs magic body =>
-      match eval env msgs with
-      | Some (VMsgs ms) =>
-          do mg <- eval_int env magic;
-          do b <- encode_message_set (fun _ => 0) O ms None mg;
-          (fix run_items (its : list item) : res (list Z) :=
-             match its with
-             | [] => Ok []
-             | it :: r => do a <- run_item it (env ++ [VStr (Some b)]); do t <- run_items r; Ok (a ++ t)
-             end) body
-      | _ => Err TypeErr
-      end
+  | ILetMsgSet _ _ _ | IForIdx _ _ | ICond _ _ _ | IRaise _ | ICrc _ | ILetNow _ | ILetMessage _ _ =>
+      Err Fuel                          (* not part of the clock-free fragment: see [runc] *)
   end.
 
 Fixpoint run (p : prog) (env : list val) : res (list Z) :=
@@ -173,22 +211,186 @@ Lemma run_item_for e body env :
   | _ => Err TypeErr
   end.
 Proof.
-  cbn [run_item]. destruct (eval env e) as [[z|s|ms|l|l|fs]|]; try reflexivity.
+  cbn [run_item]. destruct (eval env e) as [[z|s| |l|l|fs]|]; try reflexivity.
   apply enc_all_ext. intros v _. induction body as [|it r IH]; cbn [run]; [reflexivity|]. now rewrite IH.
 Qed.
 
-Lemma run_item_let msgs magic body env :
-  run_item (ILetMsgSet msgs magic body) env =
-  match eval env msgs with
-  | Some (VMsgs ms) =>
-      do mg <- eval_int env magic;
-      do b <- encode_message_set (fun _ => 0) O ms None mg;
-      run body (env ++ [VStr (Some b)])
+(* ------------------------------------------------------------------ the full interpreter: clock and compression oracle
+   State = the number k of clock readings made so far; the j-th reading of int(time.time() * 1000) is [clock j].
+   [runc p env clock k] = the bytes and the new k, or the exception. *)
+Definition cres : Type := res (list Z * nat).
+
+Fixpoint foldc (f : nat -> val -> nat -> cres) (l : list val) (i : nat) (k : nat) : cres :=
+  match l with
+  | [] => Ok ([], k)
+  | v :: r => do ak <- f i v k; do bk <- foldc f r (S i) (snd ak); Ok (fst ak ++ fst bk, snd bk)
+  end.
+
+Definition pure_c (r : res (list Z)) (k : nat) : cres := do b <- r; Ok (b, k).
+
+Fixpoint runc_item (i : item) (env : list val) (clock : nat -> Z) (k : nat) {struct i} : cres :=
+  let go := fix go (its : list item) (env : list val) (k : nat) : cres :=
+              match its with
+              | [] => Ok ([], k)
+              | it :: r => do ak <- runc_item it env clock k; do bk <- go r env (snd ak); Ok (fst ak ++ fst bk, snd bk)
+              end in
+  match i with
+  | IFor e body =>
+      match eval env e with
+      | Some (VList l) => foldc (fun _ v k => go body (env ++ [v]) k) l O k
+      | _ => Err TypeErr
+      end
+  | IForIdx e body =>
+      match eval env e with
+      | Some (VList l) => foldc (fun n v k => go body (env ++ [VInt (Z.of_nat n); v]) k) l O k
+      | _ => Err TypeErr
+      end
+  | ICond c th el =>
+      match eval_cond env c with
+      | Some true => go th env k
+      | Some false => go el env k
+      | None => Err TypeErr
+      end
+  | IRaise e => Err e
+  | ICrc body => do bk <- go body env k; Ok (enc_be 4 (Crc.crc32 (fst bk)) ++ fst bk, snd bk)
+  | ILetNow body => go body (env ++ [VInt (clock k)]) (S k)
+  | ILetMessage m body =>
+      match eval env m with
+      | Some v => match msg_of_val v with
+                  | Some msg => do b <- encode_message (clock k) msg;
+                                go body (env ++ [VStr (Some b)]) (if uses_clock msg then S k else k)
+                  | None => Err TypeErr
+                  end
+      | None => Err TypeErr
+      end
+  | ILetMsgSet msgs magic body =>
+      match eval env msgs with
+      | Some (VList l) =>
+          match msgs_of_vals l with
+          | Some ms => do mg <- eval_int env magic;
+                       do b <- encode_message_set clock k ms None mg;
+                       go body (env ++ [VStr (Some b)]) (k + clock_uses ms)%nat
+          | None => Err TypeErr
+          end
+      | _ => Err TypeErr
+      end
+  | _ => pure_c (run_item i env) k
+  end.
+
+Fixpoint runc (p : prog) (env : list val) (clock : nat -> Z) (k : nat) : cres :=
+  match p with
+  | [] => Ok ([], k)
+  | it :: r => do ak <- runc_item it env clock k; do bk <- runc r env clock (snd ak); Ok (fst ak ++ fst bk, snd bk)
+  end.
+
+(* the inner `go` of runc_item IS runc *)
+Lemma runc_go clock (its : list item) : forall env k,
+  (fix go (its : list item) (env : list val) (k : nat) : cres :=
+     match its with
+     | [] => Ok ([], k)
+     | it :: r => do ak <- runc_item it env clock k; do bk <- go r env (snd ak); Ok (fst ak ++ fst bk, snd bk)
+     end) its env k = runc its env clock k.
+Proof. induction its as [|it r IH]; intros env k; cbn [runc]; [reflexivity|]. destruct (runc_item it env clock k) as [ak|]; cbn [bind]; [|reflexivity]. now rewrite IH. Qed.
+
+(* ---- one equation per item, with the bodies as [runc] ---- *)
+Lemma foldc_ext f g l : forall i k, (forall i v k, f i v k = g i v k) -> foldc f l i k = foldc g l i k.
+Proof.
+  induction l as [|v r IH]; intros i k H; cbn [foldc]; [reflexivity|]. rewrite H.
+  destruct (g i v k) as [ak|]; cbn [bind]; [|reflexivity]. now rewrite IH.
+Qed.
+
+Lemma runc_item_for e body env clock k :
+  runc_item (IFor e body) env clock k =
+  match eval env e with
+  | Some (VList l) => foldc (fun _ v k => runc body (env ++ [v]) clock k) l O k
   | _ => Err TypeErr
   end.
 Proof.
-  cbn [run_item]. destruct (eval env msgs) as [[z|s|ms|l|l|fs]|]; try reflexivity.
-  destruct (eval_int env magic) as [mg|]; cbn [bind]; [|reflexivity].
-  destruct (encode_message_set (fun _ => 0) O ms None mg) as [b|]; cbn [bind]; [|reflexivity].
-  induction body as [|it r IH]; cbn [run]; [reflexivity|]. now rewrite IH.
+  cbn [runc_item]. destruct (eval env e) as [[z|s| |l|l|fs]|]; try reflexivity.
+  apply foldc_ext. intros. apply runc_go.
 Qed.
+
+Lemma runc_item_foridx e body env clock k :
+  runc_item (IForIdx e body) env clock k =
+  match eval env e with
+  | Some (VList l) => foldc (fun n v k => runc body (env ++ [VInt (Z.of_nat n); v]) clock k) l O k
+  | _ => Err TypeErr
+  end.
+Proof.
+  cbn [runc_item]. destruct (eval env e) as [[z|s| |l|l|fs]|]; try reflexivity.
+  apply foldc_ext. intros. apply runc_go.
+Qed.
+
+Lemma runc_item_cond c th el env clock k :
+  runc_item (ICond c th el) env clock k =
+  match eval_cond env c with
+  | Some true => runc th env clock k
+  | Some false => runc el env clock k
+  | None => Err TypeErr
+  end.
+Proof. cbn [runc_item]. destruct (eval_cond env c) as [[|]|]; try reflexivity; apply runc_go. Qed.
+
+Lemma runc_item_crc body env clock k :
+  runc_item (ICrc body) env clock k =
+  do bk <- runc body env clock k; Ok (enc_be 4 (Crc.crc32 (fst bk)) ++ fst bk, snd bk).
+Proof. cbn [runc_item]. now rewrite runc_go. Qed.
+
+Lemma runc_item_letnow body env clock k :
+  runc_item (ILetNow body) env clock k = runc body (env ++ [VInt (clock k)]) clock (S k).
+Proof. cbn [runc_item]. apply runc_go. Qed.
+
+Lemma runc_item_letmessage m body env clock k :
+  runc_item (ILetMessage m body) env clock k =
+  match eval env m with
+  | Some v => match msg_of_val v with
+              | Some msg => do b <- encode_message (clock k) msg;
+                            runc body (env ++ [VStr (Some b)]) clock (if uses_clock msg then S k else k)
+              | None => Err TypeErr
+              end
+  | None => Err TypeErr
+  end.
+Proof.
+  cbn [runc_item]. destruct (eval env m) as [v|]; [|reflexivity]. destruct (msg_of_val v) as [msg|]; [|reflexivity].
+  destruct (encode_message (clock k) msg); cbn [bind]; [apply runc_go|reflexivity].
+Qed.
+
+Lemma runc_item_letmsgset msgs magic body env clock k :
+  runc_item (ILetMsgSet msgs magic body) env clock k =
+  match eval env msgs with
+  | Some (VList l) =>
+      match msgs_of_vals l with
+      | Some ms => do mg <- eval_int env magic;
+                   do b <- encode_message_set clock k ms None mg;
+                   runc body (env ++ [VStr (Some b)]) clock (k + clock_uses ms)%nat
+      | None => Err TypeErr
+      end
+  | _ => Err TypeErr
+  end.
+Proof.
+  cbn [runc_item]. destruct (eval env msgs) as [[z|s| |l|l|fs]|]; try reflexivity.
+  destruct (msgs_of_vals l) as [ms|]; [|reflexivity].
+  destruct (eval_int env magic); cbn [bind]; [|reflexivity].
+  destruct (encode_message_set clock k ms None a); cbn [bind]; [apply runc_go|reflexivity].
+Qed.
+
+(* programs without loops, lets, branches: the clock is not touched *)
+Definition simple_item (i : item) : bool :=
+  match i with
+  | IPack _ | IPackStar _ _ | IHeader _ _ _ _ | IAscii _ | IText _ | IShortBytes _ | IIntString _ | IRaw _ => true
+  | _ => false
+  end.
+
+Lemma runc_simple p env clock k : forallb simple_item p = true -> runc p env clock k = pure_c (run p env) k.
+Proof.
+  induction p as [|it r IH]; intros H; [reflexivity|].
+  cbn [forallb] in H. apply andb_prop in H. destruct H as [Hi Hr].
+  assert (E : runc_item it env clock k = pure_c (run_item it env) k) by (destruct it; try discriminate Hi; reflexivity).
+  change (runc (it :: r) env clock k)
+    with (do ak <- runc_item it env clock k; do bk <- runc r env clock (snd ak); Ok (fst ak ++ fst bk, snd bk)).
+  change (run (it :: r) env) with (do a <- run_item it env; do b <- run r env; Ok (a ++ b)).
+  rewrite E. unfold pure_c. destruct (run_item it env) as [a|]; cbn [bind fst snd]; [|reflexivity].
+  rewrite (IH Hr). unfold pure_c. destruct (run r env); cbn [bind fst snd]; reflexivity.
+Qed.
+
+Lemma runc_item_simple it env clock k : simple_item it = true -> runc_item it env clock k = pure_c (run_item it env) k.
+Proof. intros H. destruct it; try discriminate H; reflexivity. Qed.
